@@ -34,3 +34,66 @@ def plan(prop, quick=40, thorough=900):
 
 for _p in ["C01", "C02", "C03", "C04", "C05", "C06", "C17"]:
     PROPS[_p] = plan(_p)
+
+
+# ---------------------------------------------------------------------------------------------
+# C18: input faults (IO engine, enumerated) + valid programs / histories under assert-enabled and sanitizer builds
+# ---------------------------------------------------------------------------------------------
+import os as _os
+
+BUILTIN_CORPUS = _os.path.join(_os.path.dirname(_os.path.dirname(_os.path.abspath(__file__))), "sim", "io", "corpus")
+
+
+def io_corpus(tier):
+    from . import common as C
+    files = []
+    for root, dirs, fs in _os.walk(_os.path.join(C.REPO, "examples")):
+        for f in fs:
+            if f.endswith(".rddl"):
+                files.append(_os.path.join(root, f))
+    for f in sorted(_os.listdir(BUILTIN_CORPUS)):
+        files.append(_os.path.join(BUILTIN_CORPUS, f))
+    files.sort(key=lambda p: (_os.path.getsize(p), p))
+    lim = 1400 if tier == "quick" else 1 << 20
+    return [f for f in files if _os.path.getsize(f) <= lim]
+
+
+def io_jobs(check, part, cfg):
+    files = io_corpus(check.tier)
+    kv = {"prop": "C18", "timeout_ms": 60000, "mem_mb": 2048}
+    chunk = 120
+    # layer a (parser alone): every prefix, both fault kinds; layer b (full reader): every prefix of every file
+    for layer, faults in (("a", ("eof", "bad")), ("b", ("eof",))):
+        for f in files:
+            n = _os.path.getsize(f) + 1
+            for fault in faults:
+                for a in range(0, n, chunk):
+                    yield ("exec", dict(kv), ["trunc file=%s layer=%s fault=%s from=%d to=%d" % (f, layer, fault, a, min(n, a + chunk))])
+    # sampled byte mutations, parser alone
+    from .common import run_seed
+    k = 0
+    rounds = 6 if check.tier == "quick" else 60
+    for rnd in range(rounds):
+        for f in files:
+            k += 1
+            yield ("exec", dict(kv), ["mut file=%s layer=a seed=%d first=0 count=40" % (f, run_seed(check.master, "C18", check.tier, k))])
+
+
+IO_RULE = ("an input = (corpus file, prefix length, fault kind eof|stream-goes-bad, layer parser|reader) - every prefix length of every corpus file is enumerated - "
+           "or a seeded byte mutation of a corpus file; plus seeded valid programs (PLAN engine) and valid API histories (NET engine) run on assert-enabled (and, thorough, ASan+UBSan) builds; "
+           "non-trivial = the cut lands inside a token (neither neighbour is white space), a mutation, or a PLAN/NET run that is non-trivial by that engine's rule; distinct = distinct (op, input) resp. history hash")
+
+PROPS["C18"] = {
+    "parts": [
+        {"engine": "io", "configs": {"quick": ["dbg"], "thorough": ["dbg", "rel"]}, "share": 0.5, "jobs": io_jobs, "run_kv": {}},
+        {"engine": "plan", "configs": {"quick": ["dbg"], "thorough": ["dbg", "asan"]}, "share": 0.25, "run_kv": {"timeout_ms": 3000, "prop": "C18"}, "layouts": {"quick": 2, "thorough": 3}},
+        {"engine": "net", "configs": {"quick": ["dbg"], "thorough": ["dbg", "asan"]}, "share": 0.25, "run_kv": {"prop": "C18"}},
+    ],
+    "engine": "io", "configs": {"quick": ["dbg"], "thorough": ["dbg", "rel", "asan"]}, "budget": {"quick": 60, "thorough": 1200},
+    "level": "fault_enumeration", "rule": IO_RULE, "minimise": True,
+    "components": {"real": ["riddle lexer/parser", "core reader", "solver", "smt"], "stub": ["the std::streambuf feeding the lexer (ends or fails at the chosen byte)"],
+                   "reference": ["process outcome classification only (returned / std::exception / anything else)"]},
+    "assumptions": ["a program is 'valid' if the PLAN generator produced it or it is one of the repository's examples", "CPU-time bound per input: 2 s",
+                    "mutated-but-parsable ill-typed text (layer c) is represented by the canary of the open finding only"],
+    "sim_time_counter": "inputs",
+}
